@@ -60,6 +60,14 @@ class Quiescent(Exception):
     """Raised by VLoop when the loop would block forever (nothing can happen)."""
 
 
+class Runaway(BaseException):
+    """The loop spun without virtual time advancing (livelock at one instant) or exceeded the real-time budget."""
+
+
+SPIN_LIMIT = 300_000
+CASE_REAL_SECONDS = 60.0
+
+
 class VLoop(asyncio.SelectorEventLoop):
     """Event loop on virtual time: select() never blocks, it jumps the clock."""
 
@@ -67,6 +75,8 @@ class VLoop(asyncio.SelectorEventLoop):
         super().__init__()
         sel = self._selector
         orig = sel.select
+        self._spins = 0
+        self._t0 = REAL_PERF()
 
         def select(timeout=None):
             ev = orig(0)
@@ -76,6 +86,13 @@ class VLoop(asyncio.SelectorEventLoop):
                 raise Quiescent()
             if timeout > 0:
                 VClock.t += timeout
+                self._spins = 0
+            else:
+                self._spins += 1
+                if self._spins > SPIN_LIMIT:
+                    raise Runaway(f"no virtual progress for {SPIN_LIMIT} loop iterations at t={VClock.t}")
+                if self._spins % 4096 == 0 and REAL_PERF() - self._t0 > CASE_REAL_SECONDS:
+                    raise Runaway(f"case exceeded {CASE_REAL_SECONDS}s real time at t={VClock.t}")
             return ev
 
         sel.select = select  # type: ignore[method-assign]
@@ -157,6 +174,13 @@ def install() -> None:
     _installed = True
     sys.dont_write_bytecode = True
     os.environ["PYTHONDONTWRITEBYTECODE"] = "1"
+    try:
+        import resource
+
+        lim = int(os.environ.get("VERIF_MEM_GB", "6")) * (1 << 30)
+        resource.setrlimit(resource.RLIMIT_AS, (lim, lim))
+    except Exception:  # noqa: BLE001
+        pass
     # virtual clock (inactive until VClock.enabled)
     _time.time = _vtime  # type: ignore[assignment]
     _time.monotonic = _vmono  # type: ignore[assignment]
